@@ -137,6 +137,11 @@ def run_pair(w, tname, s1, a1, s2, a2, st=None):
     out += chk_q(w, +q1, cls, s1, x1, f"+({q1})", tag + ':pos')
     out += chk_q(w, Q.sum([q1, q2]), cls, s1, rnd(x1 + x2_in_1, s1),
                  f"sum([{q1}, {q2}])", tag + ':sum')
+    # one and the same object as both operands
+    out += chk_q(w, q1 - q1, cls, s1, rnd(x1 - x1, s1),
+                 f"x - x with x = {q1}", tag + ':self-operand')
+    out += chk_q(w, q1 + q1, cls, s1, rnd(x1 + x1, s1),
+                 f"x + x with x = {q1}", tag + ':self-operand')
     # augmented assignment: the same sum / difference, and the object the
     # name was bound to before is left as it was
     for opn, want in (('+=', rnd(x1 + x2_in_1, s1)),
